@@ -342,6 +342,10 @@ pub struct ProgGen<'s, 'd> {
     /// does the sub-expression contain a witness or disconnect node?
     pub has_wd: Vec<bool>,
     memo: HashMap<(u64, u64), Vec<Id>>,
+    /// hidden roots and fail entropies used so far: a later assertion / fail node re-uses one of
+    /// them now and then (equal hidden roots at different places, equal entropy at different types)
+    hidden_pool: Vec<[u8; 32]>,
+    entropy_pool: Vec<[u8; 64]>,
     budget: isize,
     jets: Vec<JetRef>,
 }
@@ -357,7 +361,32 @@ impl<'s, 'd> ProgGen<'s, 'd> {
     pub fn new(src: &'s mut Src<'d>, cfg: GenCfg) -> Self {
         let jets = cfg.jet_pool.clone().unwrap_or_else(|| all_jets(cfg.family));
         let budget = cfg.max_nodes as isize;
-        ProgGen { src, cfg, nodes: vec![], arrows: vec![], has_wd: vec![], memo: HashMap::new(), budget, jets }
+        ProgGen { src, cfg, nodes: vec![], arrows: vec![], has_wd: vec![], memo: HashMap::new(), hidden_pool: vec![], entropy_pool: vec![], budget, jets }
+    }
+
+    fn hidden_root(&mut self) -> [u8; 32] {
+        if !self.hidden_pool.is_empty() && self.src.chance(50) {
+            return self.hidden_pool[self.src.below(self.hidden_pool.len())];
+        }
+        let h: [u8; 32] = self.src.array();
+        self.hidden_pool.push(h);
+        h
+    }
+
+    fn fail_entropy(&mut self) -> [u8; 64] {
+        if !self.entropy_pool.is_empty() && self.src.chance(70) {
+            return self.entropy_pool[self.src.below(self.entropy_pool.len())];
+        }
+        let mut e: [u8; 64] = self.src.array();
+        // now and then entropy with a zero tail (renderings and parsers treat trailing zeros specially)
+        if self.src.chance(40) {
+            let keep = self.src.below(64);
+            for b in e[keep..].iter_mut() {
+                *b = 0;
+            }
+        }
+        self.entropy_pool.push(e);
+        e
     }
 
     pub fn set_budget(&mut self, n: usize) {
@@ -611,7 +640,7 @@ impl<'s, 'd> ProgGen<'s, 'd> {
             8 => self.jet_rule(a, b, depth),
             9 => self.disconnect_rule(a, b, depth),
             10 => {
-                let e: [u8; 64] = self.src.array();
+                let e = self.fail_entropy();
                 self.push(Ir::Fail(e), a, b)
             }
             11 => {
@@ -643,12 +672,12 @@ impl<'s, 'd> ProgGen<'s, 'd> {
             }
             1 => {
                 let l = self.expr(&xz, b, depth + 1);
-                let h: [u8; 32] = self.src.array();
+                let h = self.hidden_root();
                 self.push(Ir::AssertL(l, h), a, b)
             }
             _ => {
                 let r = self.expr(&yz, b, depth + 1);
-                let h: [u8; 32] = self.src.array();
+                let h = self.hidden_root();
                 self.push(Ir::AssertR(h, r), a, b)
             }
         }
@@ -669,7 +698,7 @@ impl<'s, 'd> ProgGen<'s, 'd> {
         let p = self.push(Ir::Pair(sel, rest), a, &m);
         let xz = RTy::prod(x, z);
         let body = self.expr(&xz, b, depth + 1);
-        let h: [u8; 32] = self.src.array();
+        let h = self.hidden_root();
         let asrt = if left_live { self.push(Ir::AssertL(body, h), &m, b) } else { self.push(Ir::AssertR(h, body), &m, b) };
         self.push(Ir::Comp(p, asrt), a, b)
     }
